@@ -18,6 +18,7 @@ import CaddyModel.C07.GlobLemmas
 import CaddyModel.C07.GlobFuel
 import CaddyModel.C07.Pool
 import CaddyModel.C07.RedirectLemmas
+import CaddyModel.C07.SiteLemmas
 import CaddyModel.C07.Witness
 
 namespace CaddyModel.C07
@@ -356,7 +357,7 @@ theorem matcher_candidates_contained (root : Bytes) (t : TryFile) (path : Bytes)
     UnderS (pathClean (rootOrDot root)) (candidatePattern (pathClean (rootOrDot root)) t path) :=
   candidatePattern_under root t path
 
-example : candidatePattern (pathClean (rootOrDot (str "/srv/"))) ⟨[], true, str ".html"⟩ (str "/../../etc/x*")
+example : candidatePattern (pathClean (rootOrDot (str "/srv/"))) ⟨[], true, str ".html", []⟩ (str "/../../etc/x*")
     = str "/srv/etc/x\\*.html" := by decide
 
 /-- when no candidate pattern contains a glob character, a match is one of the candidates
@@ -368,8 +369,31 @@ theorem matcher_result_contained (fs : FS) (root : Bytes) (tries : List TryFile)
   obtain ⟨t, _, e⟩ := tryLoop_matched fs _ path fb tries a r d hm h
   rw [e]; exact candidatePattern_under root t path
 
-example : (matchFile wFS (str "/srv") [⟨[], true, []⟩] false (str "/x/../a.txt")).1
+example : (matchFile wFS (str "/srv") [⟨[], true, [], []⟩] false (str "/x/../a.txt")).1
     = .matched (str "/srv/a.txt") (str "/a.txt") false := by decide
+
+/-- **matcher_scan_result_contained.** The same for the scanning policies (`largest_size`,
+    `smallest_size`, `most_recently_modified`) and with any `split_path`: the selected file is one
+    of the candidates, hence below the root. -/
+theorem matcher_scan_result_contained (fs : FS) (root : Bytes) (tries : List TryFile) (pol : ScanPolicy) (path a r : Bytes) (d : Bool)
+    (hm : ∀ t ∈ tries, hasMeta (candidatePattern (pathClean (rootOrDot root)) t path) = false)
+    (h : (matchFileScan fs root tries pol path).1 = .matched a r d) :
+    UnderS (pathClean (rootOrDot root)) a := by
+  unfold matchFileScan at h
+  split at h
+  · rename_i c d' k tr hs
+    simp at h
+    have hl : (scanLoop fs (pathClean (rootOrDot root)) path pol tries none).1 = some (c, d', k) := by rw [hs]
+    rcases scanLoop_mem fs _ path pol tries none c d' k hm hl with ⟨t, _, e⟩ | ⟨_, _, hb⟩
+    · rw [← h.1, e]; exact candidatePattern_under root t path
+    · cases hb
+  · simp at h
+
+example : (matchFileScan wFS (str "/srv") [⟨str "/secret.txt", false, [], []⟩, ⟨str "/a.txt", false, [], []⟩] .recent (str "/")).1
+    = .matched (str "/srv/secret.txt") (str "/secret.txt") false := by decide
+-- split_path: `/a.txt/more` is tried as `/a.txt`; a split at the very end of the path is not found
+example : candidateRel ⟨[], true, [], [str ".txt"]⟩ (str "/a.txt/more") = str "/a.txt" ∧
+    candidateRel ⟨[], true, [], [str ".TXT"]⟩ (str "/x/a.txt") = str "/x/a.txt" := by decide
 
 /-
 **glob_from_request** — full statement (violated, see `Witness.glob_from_request_full_fails`):
@@ -466,6 +490,91 @@ example : serveSeq true toyRender [] [seqA, seqB] = [some (str "a."), some (str 
     listing — `secret.txt`, which B hides -/
 theorem pool_without_reset_leaks :
     serveSeq false toyRender [] [seqA, seqB] = [some (str "a."), some (str "txt;secret.txt;a.txt;")] := by decide
+
+/-! ## the Caddyfile site: root → vars, try_files → matcher → rewrite, file_server + its Caddyfile -/
+
+/-- **site_outcome_justified.** Whatever `try_files` matched and whatever `rewrite` made of the
+    matched relative path, the answer of the site is an answer the file server could give for
+    SOME path: a non-hidden file / listing below the root, a redirect, 404 / pass-thru … — the
+    matcher and the rewrite can change WHICH file is served, never widen what may be served. -/
+theorem site_outcome_justified (fs : FS) (c : Cfg) (tries : Option (List TryFile)) (path : Bytes)
+    (hfs : fs [] = .missing) : ∃ p', Justified fs c p' (siteServe fs c tries path).1 := by
+  unfold siteServe
+  split
+  · exact ⟨_, serve_justified fs c path path hfs⟩
+  · split
+    · rw [appendTrace_fst]; exact ⟨_, serve_justified fs c _ path hfs⟩
+    · rw [appendTrace_fst]; exact ⟨_, serve_justified fs c path path hfs⟩
+
+/-- **site_serves_no_hidden_file.** … in particular the bytes the site sends are never those of a
+    hidden file or of a file outside the root. -/
+theorem site_serves_no_hidden_file (fs : FS) (c : Cfg) (tries : Option (List TryFile)) (path p : Bytes) (id : Nat)
+    (hfs : fs [] = .missing) (h : (siteServe fs c tries path).1 = .file p id) :
+    UnderS c.rootC p ∧ c.hidden p = false ∧ fs p = .file id := by
+  obtain ⟨_, this⟩ := site_outcome_justified fs c tries path hfs
+  rw [h] at this
+  exact this
+
+/-- **caddyfile_entry_hides_it.** The entry `FinalizeUnmarshalCaddyfile` appends for the site's
+    Caddyfile hides exactly that file once `Provision` has made it absolute — for a Caddyfile
+    name that is a plain name (it gets `./` in front) or contains a separator, and whose absolute
+    path has no glob character (the entry is also a pattern). -/
+theorem caddyfile_entry_hides_it (cwd f : Bytes) (hide : List Bytes)
+    (hf : Normal (pathClean f) ∨ hasSlash (pathClean f) = true)
+    (hm : hasMeta (fastAbs cwd (pathClean f)) = false) :
+    fileHidden cwd (pathClean f) (transformHide cwd (hide ++ [cfHideEntry (pathClean f)])) = true := by
+  have hs : hasSlash (cfHideEntry (pathClean f)) = true := by
+    unfold cfHideEntry
+    split
+    · assumption
+    · simp [hasSlash, slash]
+  have habs : fastAbs cwd (cfHideEntry (pathClean f)) = fastAbs cwd (pathClean f) := by
+    unfold cfHideEntry
+    split
+    · rfl
+    · rename_i hns
+      rcases hf with hf | hf
+      · exact fastAbs_dotSlash cwd _ hf
+      · exact absurd hf hns
+  have hmem : fastAbs cwd (pathClean f) ∈ transformHide cwd (hide ++ [cfHideEntry (pathClean f)]) := by
+    simp only [transformHide, List.map_append, List.map_cons, List.map_nil, hs, if_true, habs]
+    simp
+  have hne : transformHide cwd (hide ++ [cfHideEntry (pathClean f)]) ≠ [] := by
+    intro e; rw [e] at hmem; cases hmem
+  unfold fileHidden
+  rw [if_neg hne, List.any_eq_true]
+  refine ⟨_, hmem, ?_⟩
+  unfold hiddenBy fmatch
+  rw [globMatch_self _ hm]
+  simp
+
+/-- the hide list of a site: either the Caddyfile was already hidden by the list as written, or
+    the entry of `caddyfile_entry_hides_it` is in it -/
+theorem siteHide_cases (cwd f : Bytes) (hide : List Bytes) :
+    (fileHidden cwd (pathClean f) hide = true ∧ siteHide cwd hide (some f) = hide) ∨
+    siteHide cwd hide (some f) = hide ++ [cfHideEntry (pathClean f)] := by
+  simp only [siteHide]
+  split
+  · left; exact ⟨by assumption, rfl⟩
+  · right; rfl
+
+/-- **rewrite_target_plain.** For a matched relative path without `%` and `?` the rewrite hands the
+    file server exactly that path (otherwise `url.PathUnescape` / the query cut change it — the
+    file server then decides about the changed path, see `site_outcome_justified`). -/
+theorem rewrite_target_plain (rel : Bytes) (h1 : (37 : UInt8) ∉ rel) (h2 : (63 : UInt8) ∉ rel) : rewriteTarget rel = rel := by
+  unfold rewriteTarget
+  rw [cutAt_none 63 rel h2]
+  simp only [validEsc_noPercent rel h1, if_true]
+  exact unescapeAll_noPercent rel h1
+
+-- `try_files {path} /index.html` on the site of `wFS`: `/nope` is rewritten to `/a.txt`-style targets
+example : (siteServe wFS { wCfg with hide := siteHide (str "/w") [] (some (str "/srv/a.txt")) }
+    (some [⟨[], true, [], []⟩]) (str "/a.txt")).1 = .notFound := by decide
+example : (siteServe wFS wCfg (some [⟨[], true, [], []⟩, ⟨str "/a.txt", false, [], []⟩]) (str "/nope")).1
+    = .file (str "/srv/a.txt") 1 := by decide
+example : rewriteTarget (str "/a%41?x") = str "/aA" := by decide
+example : siteHide (str "/w") [str "*.txt"] (some (str "Caddyfile")) = [str "*.txt", str "./Caddyfile"] := by decide
+example : Normal (pathClean (str "Caddyfile")) ∧ hasMeta (fastAbs (str "/w") (pathClean (str "Caddyfile"))) = false := by decide
 
 /-! ## model sanity: fuel
 
